@@ -13,19 +13,17 @@
   Model: `PyFV.Model.State` (content stamps, `step`, `run`).  All statements are for EVERY finite
   history `ops : List Op` (induction over the list through one-step preservation lemmas).
 
-  Deviations from the requested statements (each with a proved counterexample below):
+  Remarks on the statements:
    * `CacheOK` and `GhostOK` are true of every reachable state but are NOT one-step inductive on
      their own (`cacheOK_step_counterexample`, `ghostOK_step_counterexample`: `apply_BCs` by a
      variable that shares the BC object clears the shared `modified` flag of another variable).
      The inductive invariants are `CacheInv` ("the cache was built from the snapshot
-     `_BCs_applied`") and `GhostInv` ("unless the values were edited, the ghost layer was built
-     from the interior and the snapshot"); `CacheOK` / `GhostOK` follow from them.
-   * For the ghost layer the side condition "no copy of a value-dirty variable"
-     (`NoCopyOfValueDirty`) is NOT sufficient (`ghostOK_valueDirty_insufficient`): `.copy v`
-     also produces a stale, unflagged ghost layer when `v`'s snapshot `_BCs_applied` differs
-     from the current content of its BC object while the `modified` flag is clear (shared object
-     edited and applied by the *other* variable, or a silent in-place edit).  The side condition
-     that works is `NoCopyOfDirty` (`CopyClean`: `valMod = false ∧ applied = content`).
+     `_BCs_applied`, or the snapshot is not the current content") — which needs `WFSt` for the
+     freshness argument — and `GhostInv` ("unless the values were edited, the ghost layer was
+     built from the interior and the snapshot"); `CacheOK` / `GhostOK` follow from them.
+   * `copy()` carries `_BCs_applied` and `value.modified` over from the original, so the ghost
+     layer is coherent for ALL histories (`ghostOK_run`, no side condition).  The previous
+     `copy()` (`stepOldCopy`) produced stale, unflagged ghost layers: `old_copy_stale_ghost_*`.
 -/
 import PyFV.Lemmas.StateLemmas
 
@@ -48,20 +46,23 @@ theorem bc_live (ops : List Op) {v : Nat} (hv : v < (run ops).nV) :
 
 /-! ## 2. Cached boundary terms -/
 
-theorem cacheInv_init : CacheInv init := varInv_init _
+theorem cacheInv_init : CacheInv init := fun _ hv => absurd hv (Nat.not_lt_zero _)
 
-theorem cacheInv_step {s : St} (op : Op) (h : CacheInv s) : CacheInv (step s op).1 :=
-  State.cacheInv_step op h
+/-- one-step preservation of the inductive invariant; `WFSt` gives the freshness argument: an
+    edit creates a stamp different from every stored snapshot `applied` -/
+theorem cacheInv_step {s : St} (hwf : WFSt s) (op : Op) (h : CacheInv s) :
+    CacheInv (step s op).1 := State.cacheInv_step hwf op h
 
 theorem cacheInv_run (ops : List Op) : CacheInv (run ops) :=
-  inv_run cacheInv_init (fun _ op h => State.cacheInv_step op h) ops
+  (inv_run (I := fun s => WFSt s ∧ CacheInv s) ⟨State.wf_init, cacheInv_init⟩
+    (fun _ op h => ⟨State.wf_step h.1 op, State.cacheInv_step h.1 op h.2⟩) ops).2
 
 theorem cacheOK_init : CacheOK init := cacheOK_of_cacheInv cacheInv_init
 
-/-- one-step preservation, from the inductive invariant `CacheInv` (see the counterexample
-    below for why `CacheOK s` alone is not enough; `WFSt` is not needed) -/
-theorem cacheOK_step {s : St} (op : Op) (h : CacheInv s) : CacheOK (step s op).1 :=
-  cacheOK_of_cacheInv (State.cacheInv_step op h)
+/-- one-step preservation, from well-formedness and the inductive invariant `CacheInv` (see the
+    counterexample below for why `CacheOK s` alone is not enough) -/
+theorem cacheOK_step {s : St} (hwf : WFSt s) (op : Op) (h : CacheInv s) :
+    CacheOK (step s op).1 := cacheOK_of_cacheInv (State.cacheInv_step hwf op h)
 
 /-- in every reachable state the cached boundary terms of a variable that is not flagged
     outdated were built from the CURRENT content of its (possibly shared) BC object -/
@@ -82,7 +83,7 @@ theorem cacheOK_step_counterexample :
 theorem solve_uses_current_bc (ops : List Op) {v : Nat} (hv : v < (run ops).nV) :
     (step (run ops) (.solve v)).2 =
       Out.solved (some ((run ops).bcs ((run ops).vars v).bc).content) ((run ops).vars v).interior :=
-  solve_out_of_cacheV hv (cacheInv_run ops v hv)
+  solve_out_of_cacheS hv (cacheInv_run ops v hv)
 
 /-- a variable just constructed on a live BC object `b`: the immediate solve uses the content
     of `b` and the constructor's interior (any state `s`) -/
@@ -96,7 +97,7 @@ theorem fresh_solve (s : St) {b : Nat} (hb : b < s.nB) :
     have hx : (step s (.newVar b)).1.vars s.nV = mkVar s b s.next true := by
       rw [step_newVar_vars hb, if_pos rfl]
     have hc : CacheV ((step s (.newVar b)).1.vars s.nV) := by rw [hx]; exact cacheV_mkVar _ _ _ _
-    rw [solve_out_of_cacheV hlive hc, hx, step_newVar_bcs hb]
+    rw [solve_out_of_cacheS hlive (cacheS_of_cacheV hc _), hx, step_newVar_bcs hb]
     rfl
 
 /-- "any history, then solve" = "fresh variable on the same boundary conditions, then solve":
@@ -158,75 +159,27 @@ theorem after_solve_clean (s : St) {v : Nat} (hv : v < s.nV) :
 
 theorem ghostInv_init : GhostInv init := varInv_init _
 
-/-- one-step preservation of the ghost-layer invariant for every op except an unclean copy -/
-theorem ghostInv_step {s : St} (op : Op) (hc : CopyClean s op) (h : GhostInv s) :
-    GhostInv (step s op).1 := State.ghostInv_step op hc h
+/-- one-step preservation of the ghost-layer invariant, for every op -/
+theorem ghostInv_step {s : St} (op : Op) (h : GhostInv s) : GhostInv (step s op).1 :=
+  State.ghostInv_step op h
+
+theorem ghostInv_run (ops : List Op) : GhostInv (run ops) :=
+  inv_run ghostInv_init (fun _ op h => State.ghostInv_step op h) ops
 
 theorem ghostOK_init : GhostOK init := ghostOK_of_ghostInv ghostInv_init
 
-/-- one-step statement: every op EXCEPT `.copy v` with `valMod = true` or
-    `applied ≠ current content` (see `CopyClean`) keeps the ghost layers right -/
-theorem ghostOK_step {s : St} (op : Op) (hc : CopyClean s op) (h : GhostInv s) :
-    GhostOK (step s op).1 := ghostOK_of_ghostInv (State.ghostInv_step op hc h)
+theorem ghostOK_step {s : St} (op : Op) (h : GhostInv s) : GhostOK (step s op).1 :=
+  ghostOK_of_ghostInv (State.ghostInv_step op h)
 
-/-- every op other than `.copy` is unconditionally fine -/
-theorem ghostOK_step_of_not_copy {s : St} (op : Op) (hop : ∀ v, op ≠ .copy v) (h : GhostInv s) :
-    GhostOK (step s op).1 := by
-  apply ghostOK_step op _ h
-  cases op <;> first | trivial | exact absurd rfl (hop _)
-
-theorem ghostInv_run (ops : List Op) (h : NoCopyOfDirty ops) : GhostInv (run ops) :=
-  ghostInv_runFrom ops init h ghostInv_init
-
-/-- for every history in which no `.copy` is taken of a variable that carries an un-applied value
-    edit or an out-of-date snapshot: the ghost layer of every variable that is not flagged
-    outdated reflects its current interior and the current content of its BC object.
-
-    NOTE: a stale ghost layer of a copy cannot affect a solve: the solve does not read the ghost
-    layer (it overwrites it), and `solve_uses_current_bc` has no such side condition. -/
-theorem ghostOK_run (ops : List Op) (h : NoCopyOfDirty ops) : GhostOK (run ops) :=
-  ghostOK_of_ghostInv (ghostInv_run ops h)
-
-/-- under the weaker, originally requested side condition (only value-dirty copies excluded)
-    the *interior half* of the statement still holds … -/
-theorem ghostInterior_run (ops : List Op) (h : NoCopyOfValueDirty ops) {v : Nat}
-    (hv : v < (run ops).nV) (ho : outdated (run ops) ((run ops).vars v) = false) :
-    ((run ops).vars v).ghostI = ((run ops).vars v).interior :=
-  ghostIV_runFrom ops init h (varInv_init _) v hv (outdated_eq_false ho).2.1
-
-/-- … but not the boundary half: two variables share BC object 0; the object is edited and
-    applied by variable 0; variable 1 (snapshot out of date, flag already cleared) is copied.
-    The copy is not flagged outdated, yet its ghost layer was computed from the old content. -/
-theorem ghostOK_valueDirty_insufficient :
-    NoCopyOfValueDirty [.newBC, .newVar 0, .newVar 0, .editBC 0, .applyBCs 0, .copy 1] ∧
-    ¬ GhostOK (run [.newBC, .newVar 0, .newVar 0, .editBC 0, .applyBCs 0, .copy 1]) := by
-  constructor <;> decide
-
-/-- the same through a silent in-place edit (no sharing needed) -/
-theorem copy_after_silent_edit_has_stale_ghost :
-    let s := run [.newVarDefault, .editBCSilent 0, .copy 0]
-    NoCopyOfValueDirty [.newVarDefault, .editBCSilent 0, .copy 0] ∧
-    outdated s (s.vars 1) = false ∧ (s.vars 1).ghostB ≠ (s.bcs (s.vars 1).bc).content := by
-  decide
-
-/-- the requested counterexample: copying a variable whose values were edited but not yet
-    re-applied copies the stale ghost layer while the constructor resets `value.modified` -/
-theorem copy_of_value_dirty_has_stale_ghost :
-    let s := run [.newVarDefault, .editVal 0, .copy 0]
-    outdated s (s.vars 1) = false ∧ (s.vars 1).ghostI ≠ (s.vars 1).interior ∧ ¬ GhostOK s := by
-  decide
-
-/-- … but the following solve of the copy is still right (instance of `solve_uses_current_bc`) -/
-theorem copy_of_value_dirty_solves_right :
-    let s := run [.newVarDefault, .editVal 0, .copy 0]
-    (step s (.solve 1)).2 = Out.solved (some (s.bcs (s.vars 1).bc).content) (s.vars 1).interior := by
-  decide
+/-- for EVERY history: the ghost layer of every variable that is not flagged outdated reflects
+    its current interior and the current content of its BC object -/
+theorem ghostOK_run (ops : List Op) : GhostOK (run ops) := ghostOK_of_ghostInv (ghostInv_run ops)
 
 /-- `WFSt s ∧ GhostOK s` does not imply `GhostOK (step s op).1` (same unreachable state as for
-    the cache) -/
+    the cache: `apply_BCs` on a variable sharing the BC object clears the shared flag) -/
 theorem ghostOK_step_counterexample :
-    ∃ (s : St) (op : Op), WFSt s ∧ GhostOK s ∧ CopyClean s op ∧ ¬ GhostOK (step s op).1 :=
-  ⟨ceState, .applyBCs 0, wf_ceState, by decide, trivial, by decide⟩
+    ∃ (s : St) (op : Op), WFSt s ∧ GhostOK s ∧ ¬ GhostOK (step s op).1 :=
+  ⟨ceState, .applyBCs 0, wf_ceState, by decide, by decide⟩
 
 /-! ## 6. Independence of copies -/
 
@@ -309,14 +262,36 @@ theorem copy_independent {s : St} (h : WFSt s) {v : Nat} (hv : v < s.nV) (ops : 
   · intro ht
     exact runFrom_independent ops s1 ht (by omega) (by omega) (by omega) hvb hvw.symm hne.symm
 
-/-- the copy starts as an exact duplicate: same interior stamp, its own BC object with the
-    same content and flags -/
+/-- the copy starts as an exact duplicate: same interior and ghost stamps, same snapshot and
+    `value.modified`, its own BC object with the same content and flags -/
 theorem copy_duplicates {s : St} {v : Nat} (hv : v < s.nV) :
     ((step s (.copy v)).1.vars s.nV).interior = (s.vars v).interior ∧
+    ((step s (.copy v)).1.vars s.nV).ghostI = (s.vars v).ghostI ∧
+    ((step s (.copy v)).1.vars s.nV).ghostB = (s.vars v).ghostB ∧
+    ((step s (.copy v)).1.vars s.nV).applied = (s.vars v).applied ∧
+    ((step s (.copy v)).1.vars s.nV).valMod = (s.vars v).valMod ∧
+    ((step s (.copy v)).1.vars s.nV).bc = s.nB ∧
     (step s (.copy v)).1.bcs s.nB = s.bcs (s.vars v).bc := by
-  constructor
-  · rw [step_copy_vars hv, if_pos rfl]; rfl
-  · rw [step_copy_bcs hv, if_pos rfl]
+  have hx : (step s (.copy v)).1.vars s.nV = copyVar s v := by rw [step_copy_vars hv, if_pos rfl]
+  rw [hx, step_copy_bcs hv, if_pos rfl]
+  exact ⟨rfl, rfl, rfl, rfl, rfl, rfl, rfl⟩
+
+/-- the copy is flagged outdated iff the original is -/
+theorem copy_outdated_iff {s : St} {v : Nat} (hv : v < s.nV) :
+    outdated (step s (.copy v)).1 ((step s (.copy v)).1.vars s.nV) = outdated s (s.vars v) := by
+  have h := copy_duplicates hv
+  unfold outdated
+  rw [h.2.2.2.2.2.1, h.2.2.2.2.2.2, h.2.2.2.2.1, h.2.2.2.1]
+
+/-- the cached boundary terms of the copy are built from the current content of its own BC
+    object, whatever the state of the original -/
+theorem copy_cache_current {s : St} {v : Nat} (hv : v < s.nV) :
+    ((step s (.copy v)).1.vars s.nV).cache =
+      some ((step s (.copy v)).1.bcs ((step s (.copy v)).1.vars s.nV).bc).content := by
+  have hx : (step s (.copy v)).1.vars s.nV = copyVar s v := by rw [step_copy_vars hv, if_pos rfl]
+  rw [hx]
+  show some _ = some ((step s (.copy v)).1.bcs s.nB).content
+  rw [step_copy_bcs hv, if_pos rfl]
 
 /-! ## 7. The explicit solver -/
 
@@ -348,7 +323,7 @@ theorem explicit_result_usable (s : St) {v : Nat} (hv : v < s.nV) :
   have hx : s1.vars w = applyVar ((preExplicit s v).bcs (s.vars v).bc).content
       (mkVar (preExplicit s v) (s.vars v).bc (preExplicit s v).next false) := by
     rw [hs1, postExplicit_vars, preExplicit_nV, if_pos rfl]
-  refine ⟨hw, solve_out_of_cacheV hw (by rw [hx]; exact cacheV_applyVar _ _), ?_, ?_⟩
+  refine ⟨hw, solve_out_of_cacheS hw (by rw [hx]; exact cacheS_of_cacheV (cacheV_applyVar _ _) _), ?_, ?_⟩
   · have hbc : (s1.vars w).bc = (s.vars v).bc := by rw [hx]; rfl
     rw [hbc, hs1, postExplicit_bcs, if_pos rfl]
     exact preExplicit_content s v _
@@ -413,6 +388,44 @@ theorem old_cache_stale_unflagged :
     outdatedOld s (s.vars 1) = false ∧ (s.vars 1).cache ≠ some (s.bcs (s.vars 1).bc).content := by
   decide
 
+/-- the `copy()` before its repair, value edit: copying a variable whose values were edited but
+    not yet re-applied copied the stale ghost layer while the constructor reset
+    `value.modified`; now the copy is flagged outdated like its original -/
+theorem old_copy_stale_ghost_value :
+    let h : List Op := [.newVarDefault, .editVal 0, .copy 0]
+    (outdated (runOldCopy h) ((runOldCopy h).vars 1) = false ∧
+     ((runOldCopy h).vars 1).ghostI ≠ ((runOldCopy h).vars 1).interior ∧ ¬ GhostOK (runOldCopy h)) ∧
+    (outdated (run h) ((run h).vars 1) = true ∧ GhostOK (run h)) := by
+  decide
+
+/-- the `copy()` before its repair, shared BC object edited and applied by the OTHER variable:
+    the copy of variable 1 (snapshot out of date, shared flag already cleared) was not flagged
+    outdated, yet its ghost layer was computed from the old content -/
+theorem old_copy_stale_ghost_shared :
+    let h : List Op := [.newBC, .newVar 0, .newVar 0, .editBC 0, .applyBCs 0, .copy 1]
+    (outdated (runOldCopy h) ((runOldCopy h).vars 2) = false ∧
+     ((runOldCopy h).vars 2).ghostB ≠ ((runOldCopy h).bcs ((runOldCopy h).vars 2).bc).content ∧
+     ¬ GhostOK (runOldCopy h)) ∧
+    (outdated (run h) ((run h).vars 2) = true ∧ GhostOK (run h)) := by
+  decide
+
+/-- the `copy()` before its repair, silent in-place edit (no sharing needed) -/
+theorem old_copy_stale_ghost_silent :
+    let h : List Op := [.newVarDefault, .editBCSilent 0, .copy 0]
+    (outdated (runOldCopy h) ((runOldCopy h).vars 1) = false ∧
+     ((runOldCopy h).vars 1).ghostB ≠ ((runOldCopy h).bcs ((runOldCopy h).vars 1).bc).content ∧
+     ¬ GhostOK (runOldCopy h)) ∧
+    (outdated (run h) ((run h).vars 1) = true ∧ GhostOK (run h)) := by
+  decide
+
+/-- in all three histories the solve of the (old or new) copy was and is right: the solve does
+    not read the ghost layer -/
+theorem copy_of_dirty_solves_right :
+    ∀ h, h ∈ [[Op.newVarDefault, .editVal 0, .copy 0], [.newVarDefault, .editBCSilent 0, .copy 0]] →
+      (step (run h) (.solve 1)).2 =
+        Out.solved (some ((run h).bcs ((run h).vars 1).bc).content) ((run h).vars 1).interior := by
+  decide
+
 /-! ## 9. Non-vacuity -/
 
 /-- `demoHistory`: sharing, tracked and silent edits, explicit solve, copy, arithmetic,
@@ -429,13 +442,15 @@ example : ∀ v, v < (run demoHistory).nV →
 example : ((run demoHistory).vars 0).bc = 0 ∧ ((run demoHistory).vars 1).bc = 0 ∧
     ((run demoHistory).vars 2).bc = 0 ∧ ((run demoHistory).bcs 0).content ≠ 1 := by decide
 
-/-- the side condition of `ghostOK_run` is satisfiable by a history containing a `.copy` -/
-example : NoCopyOfDirty demoHistory ∧ Op.copy 1 ∈ demoHistory := by decide
+example : GhostOK (run demoHistory) ∧ CacheOK (run demoHistory) :=
+  ⟨ghostOK_run _, cacheOK_run _⟩
 
-example : GhostOK (run demoHistory) := ghostOK_run _ (by decide)
-
-/-- … and it is a real restriction -/
-example : ¬ NoCopyOfDirty [.newVarDefault, .editVal 0, .copy 0] := by decide
+/-- a copy of an outdated variable: flagged outdated (`copy_outdated_iff`), second alternative of
+    `CacheS` (snapshot ≠ current content) while its cache IS current (`copy_cache_current`) -/
+example :
+    let s := run [.newVarDefault, .editBCSilent 0, .copy 0]
+    outdated s (s.vars 1) = true ∧ (s.vars 1).applied ≠ (s.bcs (s.vars 1).bc).content ∧
+    (s.vars 1).cache = some (s.bcs (s.vars 1).bc).content := by decide
 
 /-- some variable of `demoHistory` is not outdated (so `CacheOK` / `GhostOK` say something) and
     some variable is outdated -/
